@@ -41,4 +41,7 @@ func c07(c *Ctx) {
 	extrarules.WhoMayStoreField(c.P, r, "P8", "Demuxer.packetBuffer/dropped-by", "Demuxer", "packetBuffer", []string{"(*Demuxer).Rewind"}, 1, extrarules.IsNilConst, "nil stores",
 		"re-detecting the packet size after input was consumed rewinds a seekable reader to offset 0 (the stream is replayed over the live pool) or swallows the next two packets of a plain reader")
 	r.Floor("C07", "obligations", len(r.Obls), 18)
+	// a PMT PID is recognised because a PAT listing it was delivered before: PATs are delivered by the packet that completes
+	// them (R6, R9, R10)
+	joinPSIComplete(c)
 }
